@@ -102,32 +102,44 @@ def len_term(kind, f, recv='self'):
     raise ValueError(kind)
 
 def rt_items(tname, fields, nocomp=None):
-    """wf_cdec / wf_nocomp and the generated round-trip proof: decode(pre + encode(v)) relates to v"""
+    """wf_cdec / wf_canon / wf_nocomp and the generated round-trip proof: decode(pre + encode(v)) relates to v.
+    One isolated `assert(<decoder conjunct>) by { ... }` per field keeps every SMT query small."""
     from schema import NO_COMPRESSION
     nc = 'true' if tname in NO_COMPRESSION else 'false'
+    steps = dec_steps(fields, v='self')
     lines = ['        lemma_pow256_vals();', '        let d = pre + self.wf_enc();', '        let q0 = pre.len() as int;']
     for i, (kind, f) in enumerate(fields):
         x = 'self.%s' % f
         q = 'q%d' % i
         lines.append('        let q%d = %s + %s;' % (i + 1, q, len_term(kind, f)))
+    for i, (kind, f) in enumerate(fields):
+        x = 'self.%s' % f
+        q = 'q%d' % i
+        cond = re.sub(r'\bdata\b', 'd', steps[i][0])
+        cond = re.sub(r'\bq\b', q, cond)
+        hints = []
         if kind == 'u8':
-            lines.append('        assert(d[%s] == %s);' % (q, x))
+            pass
         elif kind in ('u16', 'u32', 'u128', 'i32'):
             n = INT_WIDTH[kind]
             val = 'i32_bits(%s)' % x if kind == 'i32' else '%s as nat' % x
-            lines.append('        lemma_be_enc(%s, %d);' % (val, n))
-            lines.append('        assert(d.subrange(%s, %s + %d) =~= enc_be(%s, %d));' % (q, q, n, val, n))
+            hints.append('lemma_be_enc(%s, %d);' % (val, n))
+            hints.append('assert(d.subrange(%s, %s + %d) =~= enc_be(%s, %d));' % (q, q, n, val, n))
         elif kind.startswith('bytes'):
             n = int(kind[5:])
-            lines.append('        assert(d.subrange(%s, %s + %d) =~= %s@);' % (q, q, n, x))
+            hints.append('assert(d.subrange(%s, %s + %d) =~= %s@);' % (q, q, n, x))
         elif kind == 'name':
-            lines.append('        lemma_name_roundtrip(d.subrange(0, %s), %s.lv(), d.subrange(q%d, d.len() as int));' % (q, x, i + 1))
-            lines.append('        assert(d =~= d.subrange(0, %s) + name_enc(%s.lv()) + d.subrange(q%d, d.len() as int));' % (q, x, i + 1))
+            hints.append('lemma_name_roundtrip(d.subrange(0, %s), %s.lv(), d.subrange(q%d, d.len() as int));' % (q, x, i + 1))
+            hints.append('assert(d =~= d.subrange(0, %s) + name_enc(%s.lv()) + d.subrange(q%d, d.len() as int));' % (q, x, i + 1))
+            cond += ' && %s + inplace_len(d, %s) == q%d' % (q, q, i + 1)
         elif kind == 'cstr':
-            lines.append('        assert(d[%s] == %s.bytes().len() as u8);' % (q, x))
-            lines.append('        assert(d.subrange(%s + 1, q%d) =~= %s.bytes());' % (q, i + 1, x))
+            hints.append('assert(d[%s] == %s.bytes().len() as u8);' % (q, x))
+            hints.append('assert(d.subrange(%s + 1, q%d) =~= %s.bytes());' % (q, i + 1, x))
+            cond += ' && %s + 1 + d[%s] == q%d' % (q, q, i + 1)
         elif kind == 'tail':
-            lines.append('        assert(d.subrange(%s, d.len() as int) =~= %s@);' % (q, x))
+            hints.append('assert(d.subrange(%s, d.len() as int) =~= %s@);' % (q, x))
+        lines.append('        assert(%s) by { %s }' % (cond, ' '.join(hints)))
+    lines.append('        assert(q%d == d.len());' % len(fields))
     return ("""    open spec fn wf_cdec(data: Seq<u8>, p: int, v: &Self, p2: int) -> bool { Self::wf_dec(data, p, v, p2) }
     open spec fn wf_canon(&self) -> bool { true }
     open spec fn wf_nocomp() -> bool { %s }
